@@ -60,8 +60,11 @@ static void check_edges(JanetFiber *F, int32_t f0) {
 
 JanetEVCallback g_cb_addr = vc_ev_cb;   /* address taken: vc_ev_cb is the candidate of the indirect call fiber->ev_callback(...) */
 void h_mark_fiber(void) {
-  JanetFiber F0, F1, *fiber = &F0; Janet g_stack0[VC_NSLOTS], g_stack1[VC_NSLOTS];   /* uninitialised locals: arbitrary contents */
-  /* arbitrary stack contents, arbitrary fiber fields */
+  /* arbitrary fibers and stack contents: fresh heap objects (not uninitialised locals, see gc_walk.c) */
+  JanetFiber *pf0 = malloc(sizeof(JanetFiber)), *pf1 = malloc(sizeof(JanetFiber)), *fiber = pf0;
+#define F0 (*pf0)
+#define F1 (*pf1)
+  Janet *g_stack0 = malloc(sizeof(Janet) * VC_NSLOTS), *g_stack1 = malloc(sizeof(Janet) * VC_NSLOTS);
   F0.data = g_stack0; F0.capacity = VC_NSLOTS; F1.data = g_stack1; F1.capacity = VC_NSLOTS;
   int has1 = nd_int();
   F0.child = has1 ? &F1 : (JanetFiber *) 0;
@@ -77,7 +80,7 @@ void h_mark_fiber(void) {
   int32_t s0 = g_lvl == 0 ? a0 : b0, s1 = g_lvl == 0 ? a1 : b1, s2 = g_lvl == 0 ? a2 : b2;
   g_ik = g_fr == 0 ? s0 : g_fr == 1 ? s1 : s2;
   g_jk = g_fr == 0 ? S->stackstart - JANET_FRAME_SIZE : g_fr == 1 ? s0 - JANET_FRAME_SIZE : s1 - JANET_FRAME_SIZE;
-  g_val = S->last_value; g_tab = S->env; g_cbf = S;
+  JCOPY(g_val, S->last_value); g_tab = S->env; g_cbf = S;
   g_abs = g_asel == 0 ? (const void *) S->supervisor_channel : (const void *) S->ev_stream;
   g_fn = g_env = (const void *) 0;
   if (g_ik > 0) { g_fn = FR(S, g_ik)->func; g_env = FR(S, g_ik)->env; }
